@@ -300,7 +300,8 @@ class PackageGenerator:
         return code
 
     def _generate_enums(self):
-        if self.include_all_enums:
+        # custom operations expose every argument of the schema
+        if self.include_all_enums or self.enable_custom_operations:
             module = self.enums_generator.generate()
         else:
             module = self.enums_generator.generate(types_to_include=self._used_enums)
@@ -316,7 +317,8 @@ class PackageGenerator:
         )
 
     def _generate_input_types(self):
-        if self.include_all_inputs:
+        # custom operations expose every argument of the schema
+        if self.include_all_inputs or self.enable_custom_operations:
             module = self.input_types_generator.generate()
         else:
             used_inputs = self.client_generator.arguments_generator.get_used_inputs()
